@@ -13,8 +13,12 @@
                           record else `Value -= out.Value`; list mode: `slices.Index` < 0 → skip,
                           `len == 1` → drop record else subtract and cut the element out.
     * `GetAllUnspent`   : address → (idx, H payload) → record → every entry looked up in the UTXO map by
-                          its 8-byte key (`GetRec`), reported when the output is still non-nil.
-    * `LoadBalancesFromUtxo` / `Disable` / `InitMaps` (min value and useMapCnt are re-read only here).
+                          its 8-byte key (`GetRec`), reported when the output is still non-nil. The branches that map
+                          ANY `btc.BtcAddr` value (any witness version / program, any base58 version) to (idx, payload)
+                          or to "return nothing" are in Model/BalancesAddr.lean (`addrKey`, `getAllUnspentQ`).
+    * `LoadBalancesFromUtxo` / `Disable` / `InitMaps` (min value and useMapCnt are re-read only here — a source
+                          fact regenerated from /repo by go/cmd/gen_c17, see Model/BalancesCfg.lean for config
+                          changes landing during the build).
     * `UnspentDB.commit` do_add (notify with the new record, then store it), `UnspentDB.del` (look the
       record up, notify with it and the mask, clear the masked outputs, store or drop), `UndoBlockTxs`
       (with callbacks: `del` with an all-true mask; without: drop the whole record; then for every undo
